@@ -240,7 +240,9 @@ def make_phase(name, beh, ctx):
       raise FailureBase('base class of the failure exception in %s' % name)
     return {'ok': None, 'continue': h.PhaseResult.CONTINUE, 'fail': h.PhaseResult.FAIL_AND_CONTINUE,
             'skip': h.PhaseResult.SKIP, 'stop': h.PhaseResult.STOP, 'fail_subtest': h.PhaseResult.FAIL_SUBTEST,
-            'repeat': h.PhaseResult.REPEAT, 'bad': 42, 'bad0': 0}[r]
+            'repeat': h.PhaseResult.REPEAT, 'bad': 42, 'bad0': 0,
+            # plain strings that merely equal an enum member's value are not PhaseResults
+            'badstr': 'CONTINUE', 'badrep': 'REPEAT'}[r]
 
   body.__name__ = name
   kw = {}
